@@ -19,8 +19,16 @@
  *   data <id> <type> <rows> <cols> <freqs> <fz0> <seed> <func> <a1> <a2> <a3> <a4> <str>
  *   cal  <id> <ncal> <holemask> <seed> <func> <a1> <a2> <a3> <a4> <str>
  *   new  <id> <type> <rows> <cols> <freqs> <nstd> <seed> <func> <a1> ... <a8> <str>
+ *        <func>@skip: everything as for <func> (same objects, same pseudo-random stream) but the call under
+ *        test is NOT made: the twin run "that never made the rejected call"; sd= (digest of the vnacal_new_t
+ *        after the suffix has completed and solved the calibration) of a refused call must equal its twin's
+ *        add_chains: <str> = "<parameter script>/<numbers as for add_generic>"; the script creates further
+ *        parameters after the four of every run (handles 6, 7, ... in order), items separated by ';':
+ *          s | v:<lo>:<hi> (vector, MHz) | u:<other> | c:<other>:<slo>:<shi> | c:<other>:- (correlated, own sigma
+ *          frequencies slo..shi MHz / none) | d:<handle> (vnacal_delete_parameter)
  *   prop <id> <variant> <func> <str>
  *   ptie <id> <set|subtree> <str>          (model tie of vnaproperty_vset / _vset_subtree, see run_ptie)
+ *   dhist / nhist                          histories of calls on one vnadata_t / vnacal_new_t, see run_dhist, run_nhist
  * <func>@null gives the function under test a NULL object pointer (data, cal: query / parameter
  * functions, new).
  */
@@ -415,6 +423,92 @@ static void run_data(void)
     else printf(" sfx=fail:%d sfxcb=%d smsg=%s\n", sfx, sfxcb, R.msg);
     free(vec);
     free(str);
+}
+
+/* ------------------------------------------------------------------ histories (model tie of hrun / kept) */
+/* one call of the vnadata family on a valid object; returns 0, or -1 when the function is not in the table */
+static int data_dispatch(vnadata_t *vdp, const char *fn, long a1, long a2, long a3, long a4, cx *vec)
+{
+    if (!strcmp(fn, "init")) ret_int(vnadata_init(vdp, (int)a1, (int)a2, (int)a3, (int)a4));
+    else if (!strcmp(fn, "resize")) ret_int(vnadata_resize(vdp, (int)a1, (int)a2, (int)a3, (int)a4));
+    else if (!strcmp(fn, "set_type")) ret_int(vnadata_set_type(vdp, (int)a1));
+    else if (!strcmp(fn, "get_frequency")) ret_dbl(vnadata_get_frequency(vdp, (int)a1));
+    else if (!strcmp(fn, "set_frequency")) ret_int(vnadata_set_frequency(vdp, (int)a1, 2.5e9));
+    else if (!strcmp(fn, "get_fmin")) ret_dbl(vnadata_get_fmin(vdp));
+    else if (!strcmp(fn, "get_fmax")) ret_dbl(vnadata_get_fmax(vdp));
+    else if (!strcmp(fn, "get_cell")) ret_cx(vnadata_get_cell(vdp, (int)a1, (int)a2, (int)a3));
+    else if (!strcmp(fn, "set_cell")) ret_int(vnadata_set_cell(vdp, (int)a1, (int)a2, (int)a3, 0.75 - 0.5 * I));
+    else if (!strcmp(fn, "get_matrix")) ret_ptr(vnadata_get_matrix(vdp, (int)a1));
+    else if (!strcmp(fn, "set_matrix")) ret_int(vnadata_set_matrix(vdp, (int)a1, vec));
+    else if (!strcmp(fn, "get_to_vector")) ret_int(vnadata_get_to_vector(vdp, (int)a1, (int)a2, vec));
+    else if (!strcmp(fn, "set_from_vector")) ret_int(vnadata_set_from_vector(vdp, (int)a1, (int)a2, vec));
+    else if (!strcmp(fn, "get_z0")) ret_cx(vnadata_get_z0(vdp, (int)a1));
+    else if (!strcmp(fn, "set_z0")) ret_int(vnadata_set_z0(vdp, (int)a1, 75.0 + I));
+    else if (!strcmp(fn, "get_z0_vector")) ret_ptr(vnadata_get_z0_vector(vdp));
+    else if (!strcmp(fn, "set_z0_vector")) ret_int(vnadata_set_z0_vector(vdp, vec));
+    else if (!strcmp(fn, "set_all_z0")) ret_int(vnadata_set_all_z0(vdp, 60.0));
+    else if (!strcmp(fn, "get_fz0")) ret_cx(vnadata_get_fz0(vdp, (int)a1, (int)a2));
+    else if (!strcmp(fn, "set_fz0")) ret_int(vnadata_set_fz0(vdp, (int)a1, (int)a2, 33.0 - I));
+    else if (!strcmp(fn, "get_fz0_vector")) ret_ptr(vnadata_get_fz0_vector(vdp, (int)a1));
+    else if (!strcmp(fn, "set_fz0_vector")) ret_int(vnadata_set_fz0_vector(vdp, (int)a1, vec));
+    else if (!strcmp(fn, "add_frequency")) ret_int(vnadata_add_frequency(vdp, (double)a1 * 1e9));
+    else if (!strcmp(fn, "set_filetype")) ret_int(vnadata_set_filetype(vdp, (int)a1));
+    else if (!strcmp(fn, "set_fprecision")) ret_int(vnadata_set_fprecision(vdp, (int)a1));
+    else if (!strcmp(fn, "set_dprecision")) ret_int(vnadata_set_dprecision(vdp, (int)a1));
+    else return -1;
+    return 0;
+}
+
+/*
+ * dhist <id> <type> <rows> <cols> <freqs> <fz0> <seed> <op;op;...>    op = func:a1:a2:a3:a4
+ * runs the calls one after the other on one object;
+ * RES <id> ans=<ret/errno/callbacks/type,rows,cols,freqs,fz0;...> d=<digest at the end> sfx=..
+ */
+static void run_dhist(void)
+{
+    const char *id = tok[1];
+    long seed = A(7);
+    vnadata_t *vdp = data_build((int)A(2), (int)A(3), (int)A(4), (int)A(5), (int)A(6), seed);
+    char *ops = strdup(ntok > 8 && strcmp(tok[8], "-") != 0 ? tok[8] : "");
+    char *save = NULL;
+    cx *vec = calloc(64 * 64 + 64, sizeof(cx));
+    int sfx, first = 1;
+    for (int i = 0; i < 64 * 64 + 64; ++i) vec[i] = 0.5 + 0.01 * i + 0.25 * I;
+    printf("RES %s ans=", id);
+    for (char *q = strtok_r(ops, ";", &save); q != NULL; q = strtok_r(NULL, ";", &save)) {
+	char fn[40];
+	long a[4] = { 0, 0, 0, 0 };
+	int n = 0;
+	char *save2 = NULL;
+	fn[0] = 0;
+	for (char *w = strtok_r(q, ":", &save2); w != NULL; w = strtok_r(NULL, ":", &save2), ++n) {
+	    if (n == 0) snprintf(fn, sizeof(fn), "%s", w);
+	    else if (n <= 4) a[n - 1] = strtol(w, NULL, 10);
+	}
+	rec_reset();
+	errno = 0;
+	strcpy(retbuf, "?");
+	if ((!strcmp(fn, "resize") || !strcmp(fn, "init")) && (a[1] > 60 || a[2] > 60)) { printf("UNKNOWN-ARGS\n"); exit(4); }
+	if (data_dispatch(vdp, fn, a[0], a[1], a[2], a[3], vec) != 0) { printf("\nUNKNOWN-FUNC %s\n", fn); exit(4); }
+	{
+	    int err = errno;
+	    R.enabled = 0;
+	    printf("%s%s/%s/%d/%d,%d,%d,%d,%d", first ? "" : ";", retbuf, eclass(err), R.count,
+		    (int)vnadata_get_type(vdp), vnadata_get_rows(vdp), vnadata_get_columns(vdp), vnadata_get_frequencies(vdp),
+		    (int)vnadata_has_fz0(vdp));
+	    first = 0;
+	}
+    }
+    if (first) printf("-");
+    R.enabled = 0;
+    h_init(); data_digest(vdp);
+    printf(" d=%016llx", (unsigned long long)H);
+    rec_reset();
+    sfx = data_suffix(vdp);
+    vnadata_free(vdp);
+    if (sfx == 0) printf(" sfx=ok\n"); else printf(" sfx=fail:%d\n", sfx);
+    free(vec);
+    free(ops);
 }
 
 /* =================================================================== calibration helpers */
@@ -824,9 +918,17 @@ static void run_new(void)
     vnacal_new_t *subj;		/* the handle given to the function under test: vnp, or NULL for <func>@null */
     char fname[64];
     (void)one;
+    int skip = 0;
+    char *chain_csv = NULL, *chain_str = NULL;
+    char phbuf[200] = "-";
+    uint64_t sd = 0;
     snprintf(fname, sizeof(fname), "%s", fn);
     if (strlen(fname) > 5 && strcmp(fname + strlen(fname) - 5, "@null") == 0)
 	fname[strlen(fname) - 5] = 0;
+    if (strlen(fname) > 5 && strcmp(fname + strlen(fname) - 5, "@skip") == 0) {
+	fname[strlen(fname) - 5] = 0;
+	skip = 1;
+    }
     for (int i = 1; i <= 8; ++i) a[i] = A(8 + i);
     R.enabled = 0;
     rseed((uint64_t)seed + 7);
@@ -836,13 +938,43 @@ static void run_new(void)
     h_unknown = vnacal_make_unknown_parameter(vcp, h_scalar);
     h_deleted = vnacal_make_scalar_parameter(vcp, 0.7);
     vnacal_delete_parameter(vcp, h_deleted);
+    if (!strcmp(fname, "add_chains")) {
+	/* further parameters: see the grammar at the top */
+	char *save = NULL;
+	size_t n = 0;
+	chain_str = unhex(ntok > 17 ? tok[17] : "-");
+	chain_csv = strchr(chain_str, '/');
+	if (chain_csv != NULL) *chain_csv++ = 0; else chain_csv = chain_str + strlen(chain_str);
+	phbuf[0] = 0;
+	for (char *q = strtok_r(chain_str, ";", &save); q != NULL; q = strtok_r(NULL, ";", &save)) {
+	    int h = -99;
+	    long x1 = 0, x2 = 0, x3 = 0;
+	    if (q[0] == 's') h = vnacal_make_scalar_parameter(vcp, 0.2 - 0.1 * I);
+	    else if (q[0] == 'v' && sscanf(q, "v:%ld:%ld", &x1, &x2) == 2) {
+		double pf[NF] = { 1e6 * (double)x1, 0.5e6 * (double)(x1 + x2), 1e6 * (double)x2 };
+		h = vnacal_make_vector_parameter(vcp, pf, NF, gv);
+	    } else if (q[0] == 'u' && sscanf(q, "u:%ld", &x1) == 1) h = vnacal_make_unknown_parameter(vcp, (int)x1);
+	    else if (q[0] == 'c' && sscanf(q, "c:%ld:%ld:%ld", &x1, &x2, &x3) == 3) {
+		double sf[2] = { 1e6 * (double)x2, 1e6 * (double)x3 };
+		double sg[2] = { 0.01, 0.02 };
+		h = vnacal_make_correlated_parameter(vcp, (int)x1, sf, 2, sg);
+	    } else if (q[0] == 'c' && sscanf(q, "c:%ld:-", &x1) == 1) {
+		double sg[1] = { 0.01 };
+		h = vnacal_make_correlated_parameter(vcp, (int)x1, NULL, 1, sg);
+	    } else if (q[0] == 'd' && sscanf(q, "d:%ld", &x1) == 1) h = vnacal_delete_parameter(vcp, (int)x1) == 0 ? -1 : -98;
+	    else { printf("STATE-ERROR parameter script item %s\n", q); exit(3); }
+	    if (h < -1) { printf("STATE-ERROR parameter script item %s failed (%s)\n", q, R.msg); exit(3); }
+	    if (h >= 0 && n + 12 < sizeof(phbuf)) n += (size_t)snprintf(phbuf + n, sizeof(phbuf) - n, "%s%d", n ? "," : "", h);
+	}
+	if (phbuf[0] == 0) strcpy(phbuf, "-");
+    }
     if (!strcmp(fname, "set_frequency_vector") || !strcmp(fname, "set_fv3") || (!strcmp(fname, "solve") && a[1] == 1)) {
 	vnp = vnacal_new_alloc(vcp, type, rows, cols, NF);	/* frequency vector not yet given */
     } else {
 	vnp = new_build(vcp, type, rows, cols, nstd, h_scalar);
     }
     if (vnp == NULL) { printf("STATE-ERROR new type %d %dx%d nstd %d errno %s\n", type, rows, cols, nstd, eclass(errno)); exit(3); }
-    subj = strcmp(fname, fn) != 0 ? NULL : vnp;
+    subj = (strcmp(fname, fn) != 0 && !skip) ? NULL : vnp;
     fn = fname;
     if (!strcmp(fn, "solve") && a[1] == 2) {
 	/* a calibration solved earlier must survive a later failed solve: solve now with all
@@ -860,7 +992,9 @@ static void run_new(void)
 	int r_ = (int)a[5], c_ = (int)a[6];
 	fill_m(s4, r_ > 0 && r_ <= 2 ? r_ : 1, c_ > 0 && c_ <= 2 ? c_ : 1);
     }
-    if (!strcmp(fn, "new_alloc")) {
+    if (skip && strcmp(fn, "add_generic") != 0 && strcmp(fn, "add_chains") != 0) {
+	strcpy(retbuf, "skipped");
+    } else if (!strcmp(fn, "new_alloc")) {
 	made = vnacal_new_alloc(vcp, (int)a[1], (int)a[2], (int)a[3], (int)a[4]);
 	ret_ptr(made);
     } else if (!strcmp(fn, "set_frequency_vector")) {
@@ -876,7 +1010,7 @@ static void run_new(void)
 	double fv[NF];
 	for (int i = 0; i < NF; ++i) fv[i] = a[1 + i] == -999 ? NAN : (double)a[1 + i] * 1e9;
 	ret_int(vnacal_new_set_frequency_vector(subj, a[4] == 1 ? NULL : fv));
-    } else if (!strcmp(fn, "add_generic")) {
+    } else if (!strcmp(fn, "add_generic") || !strcmp(fn, "add_chains")) {
 	/* str: b_null a_rows a_cols b_rows b_cols s_rows s_cols nmap p1 p2 p3 p4 ncells h1 .. h16 asing
 	 * (a_rows = a_cols = 0: no 'a' matrix; nmap = -1: NULL port map) */
 	long v[40];
@@ -884,7 +1018,7 @@ static void run_new(void)
 	int smat[16], map[4];
 	cx av[NF] = { 1.0, 1.0, 1.0 }, zv[NF] = { 0.0, 0.0, 0.0 };
 	cx *ap[32];
-	char *str2 = unhex(ntok > 17 ? tok[17] : "-");
+	char *str2 = chain_csv != NULL ? strdup(chain_csv) : unhex(ntok > 17 ? tok[17] : "-");
 	for (char *q = strtok(str2, ","); q != NULL && nv < 40; q = strtok(NULL, ",")) v[nv++] = strtol(q, NULL, 10);
 	while (nv < 40) v[nv++] = 0;
 	for (int i = 0; i < 4; ++i) map[i] = (int)v[8 + i];
@@ -899,7 +1033,9 @@ static void run_new(void)
 	    for (int i = 0; i < 32; ++i) ap[i] = (v[1] == 1 || i / ac == i % ac) ? av : zv;	/* identity, or a row of ones */
 	    if (v[29] == 1) av[1] = 0.0;
 	}
-	if (v[1] == 0 && v[2] == 0)
+	if (skip)
+	    strcpy(retbuf, "skipped");
+	else if (v[1] == 0 && v[2] == 0)
 	    ret_int(vnacal_new_add_mapped_matrix_m(subj, v[0] ? NULL : mrow, (int)v[3], (int)v[4], smat, (int)v[5], (int)v[6],
 			v[7] == -1 ? NULL : map));
 	else
@@ -958,10 +1094,10 @@ static void run_new(void)
     R.enabled = 0;
     h_init(); new_digest(vnp); d1 = H; strcpy(w1, wbuf);
     h_init(); cal_digest(vcp, 0); c1 = H;
-    printf("RES %s ret=%s errno=%s cb=%d warn=%d cats=%s nl=%d ecb=%s d0=%016llx d1=%016llx x0=%016llx x1=%016llx w0=%s w1=%s msg=%s",
+    printf("RES %s ret=%s errno=%s cb=%d warn=%d cats=%s nl=%d ecb=%s d0=%016llx d1=%016llx x0=%016llx x1=%016llx w0=%s w1=%s ph=%s msg=%s",
 	    id, retbuf, eclass(err), R.count, R.warn, R.cats[0] ? R.cats : "-", R.nl,
 	    R.count + R.warn ? eclass(R.ecb) : "-", (unsigned long long)d0, (unsigned long long)d1,
-	    (unsigned long long)c0, (unsigned long long)c1, w0, w1, R.msg);
+	    (unsigned long long)c0, (unsigned long long)c1, w0, w1, phbuf, R.msg);
     /* suffix: give the frequency vector if still missing, add the standards that are still
      * missing, solve, add the calibration, query it */
     rec_reset();
@@ -977,6 +1113,9 @@ static void run_new(void)
 	}
     }
     if (sfx == 0 && vnacal_new_solve(vnp) != 0) sfx = 3;
+    R.enabled = 0;
+    h_init(); new_digest(vnp); sd = H;		/* the completed (and, when sfx == 0, solved) calibration */
+    R.enabled = 1;
     if (sfx == 0) {
 	int ci = vnacal_add_calibration(vcp, "after", vnp);
 	if (ci < 0) sfx = 4;
@@ -986,8 +1125,94 @@ static void run_new(void)
     if (made != NULL) vnacal_new_free(made);
     vnacal_new_free(vnp);
     vnacal_free(vcp);
+    free(chain_str);
+    printf(" sd=%016llx", (unsigned long long)sd);
     if (sfx == 0) printf(" sfx=ok sfxcb=%d\n", sfxcb);
     else printf(" sfx=fail:%d sfxcb=%d smsg=%s\n", sfx, sfxcb, R.msg);
+}
+
+/*
+ * nhist <id> <type> <rows> <cols> <nstd> <seed> <op;op;...>    op = func:a1:..:a4
+ *   func: pv (set_pvalue_limit a1/1000), et, pt (tolerances a1/1000), it (set_iteration_limit a1), z0 (set_z0 a1),
+ *         sr (add_single_reflect_m s11=a1 port=a2), dr (add_double_reflect_m s11=a1 s22=a2 ports a3 a4),
+ *         th (add_through_m ports a1 a2), solve
+ * one vnacal_new_t (frequency vector given, nstd standards of the list), the calls one after the other, then the
+ * suffix (remaining standards, solve);
+ * RES <id> ans=<ret/errno/callbacks;...> d=<digest after the history> sd=<digest after the suffix> sfx=..
+ */
+static void run_nhist(void)
+{
+    const char *id = tok[1];
+    int type = (int)A(2), rows = (int)A(3), cols = (int)A(4), nstd = (int)A(5);
+    long seed = A(6);
+    char *ops = strdup(ntok > 7 && strcmp(tok[7], "-") != 0 ? tok[7] : "");
+    char *save = NULL;
+    cx gv[NF] = { 0.1, 0.2 + 0.1 * I, 0.3 };
+    vnacal_t *vcp;
+    vnacal_new_t *vnp;
+    int sfx = 0, first = 1;
+    uint64_t d, sd;
+    R.enabled = 0;
+    rseed((uint64_t)seed + 7);
+    vcp = vnacal_create(error_fn, NULL);
+    h_scalar = vnacal_make_scalar_parameter(vcp, 0.3 + 0.1 * I);
+    h_vector = vnacal_make_vector_parameter(vcp, fvec, NF, gv);
+    h_unknown = vnacal_make_unknown_parameter(vcp, h_scalar);
+    h_deleted = vnacal_make_scalar_parameter(vcp, 0.7);
+    vnacal_delete_parameter(vcp, h_deleted);
+    vnp = new_build(vcp, type, rows, cols, nstd, h_scalar);
+    if (vnp == NULL) { printf("STATE-ERROR nhist\n"); exit(3); }
+    printf("RES %s ans=", id);
+    for (char *q = strtok_r(ops, ";", &save); q != NULL; q = strtok_r(NULL, ";", &save)) {
+	char fn[40];
+	long a[4] = { 0, 0, 0, 0 };
+	int n = 0;
+	char *save2 = NULL;
+	cx s4[4] = { 0.1, 0, 0, -0.2 };
+	fn[0] = 0;
+	for (char *w = strtok_r(q, ":", &save2); w != NULL; w = strtok_r(NULL, ":", &save2), ++n) {
+	    if (n == 0) snprintf(fn, sizeof(fn), "%s", w);
+	    else if (n <= 4) a[n - 1] = strtol(w, NULL, 10);
+	}
+	/* the measurement values do not depend on whether earlier calls were made: no draw from the stream here */
+	for (int c = 0; c < 4; ++c) { for (int f = 0; f < NF; ++f) mstore[c][f] = s4[c] + 0.001 * (f + c); mrow[c] = mstore[c]; }
+	rec_reset();
+	errno = 0;
+	strcpy(retbuf, "?");
+	if (!strcmp(fn, "pv")) ret_int(vnacal_new_set_pvalue_limit(vnp, (double)a[0] / 1000.0));
+	else if (!strcmp(fn, "et")) ret_int(vnacal_new_set_et_tolerance(vnp, (double)a[0] / 1000.0));
+	else if (!strcmp(fn, "pt")) ret_int(vnacal_new_set_p_tolerance(vnp, (double)a[0] / 1000.0));
+	else if (!strcmp(fn, "it")) ret_int(vnacal_new_set_iteration_limit(vnp, (int)a[0]));
+	else if (!strcmp(fn, "z0")) ret_int(vnacal_new_set_z0(vnp, (double)a[0]));
+	else if (!strcmp(fn, "sr")) ret_int(vnacal_new_add_single_reflect_m(vnp, mrow, rows, cols, (int)a[0], (int)a[1]));
+	else if (!strcmp(fn, "dr")) ret_int(vnacal_new_add_double_reflect_m(vnp, mrow, rows, cols, (int)a[0], (int)a[1], (int)a[2], (int)a[3]));
+	else if (!strcmp(fn, "th")) ret_int(vnacal_new_add_through_m(vnp, mrow, rows, cols, (int)a[0], (int)a[1]));
+	else if (!strcmp(fn, "solve")) ret_int(vnacal_new_solve(vnp));
+	else { printf("\nUNKNOWN-FUNC %s\n", fn); exit(4); }
+	{
+	    int err = errno;
+	    printf("%s%s/%s/%d", first ? "" : ";", retbuf, eclass(err), R.count);
+	    first = 0;
+	}
+    }
+    if (first) printf("-");
+    R.enabled = 0;
+    h_init(); new_digest(vnp); d = H;
+    rec_reset();
+    rseed((uint64_t)seed + 1007);		/* the suffix draws its measurement noise from a stream of its own */
+    for (int k = nstd; sfx == 0; ++k) {
+	int rc = std_add(vnp, rows, cols, k, h_scalar);
+	if (rc == -2) break;
+	if (rc != 0) sfx = 2;
+    }
+    if (sfx == 0 && vnacal_new_solve(vnp) != 0) sfx = 3;
+    R.enabled = 0;
+    h_init(); new_digest(vnp); sd = H;
+    printf(" d=%016llx sd=%016llx w=%s", (unsigned long long)d, (unsigned long long)sd, wbuf);
+    vnacal_new_free(vnp);
+    vnacal_free(vcp);
+    if (sfx == 0) printf(" sfx=ok\n"); else printf(" sfx=fail:%d smsg=%s\n", sfx, R.msg);
+    free(ops);
 }
 
 /* =================================================================== vnaproperty family */
@@ -1203,6 +1428,8 @@ int main(int argc, char **argv)
 	else if (!strcmp(tok[0], "new")) run_new();
 	else if (!strcmp(tok[0], "prop")) run_prop();
 	else if (!strcmp(tok[0], "ptie")) run_ptie();
+	else if (!strcmp(tok[0], "dhist")) run_dhist();
+	else if (!strcmp(tok[0], "nhist")) run_nhist();
 	else { printf("UNKNOWN-FAMILY %s\n", tok[0]); return 4; }
     }
     return 0;
